@@ -14,7 +14,7 @@ import (
 func constBool(c *ssa.Const) bool     { return constant.BoolVal(c.Value) }
 func constString(c *ssa.Const) string { return constant.StringVal(c.Value) }
 
-const maxAlloc = 1 << 47 // runtime's maxAlloc on linux/amd64 is 2^48; len*size must stay below it
+const maxAlloc = 1 << 48 // runtime's maxAlloc on linux/amd64: makeslice panics when len*size exceeds it
 
 // ---------- loads and stores ----------
 
@@ -962,7 +962,8 @@ func (m *Machine) lookup(fr *frame, instr *ssa.Lookup, x, idx Value) Value {
 	switch x := x.(type) {
 	case *Map:
 		var v Value
-		e, ok := x.lookup(m.keyString(idx))
+		e := m.mapFind(fr, x, instr.X.Type().Underlying().(*types.Map).Key(), idx)
+		ok := e != nil
 		if ok {
 			v = m.copyVal(e.v)
 		} else {
@@ -993,16 +994,15 @@ type iterator interface {
 }
 
 type mapIter struct {
-	mp   *Map
-	keys []string
+	ents []*mapEntry
 	i    int
 }
 
 func (it *mapIter) next(m *Machine, fr *frame) Tuple {
-	for it.i < len(it.keys) {
-		k := it.keys[it.i]
+	for it.i < len(it.ents) {
+		e := it.ents[it.i]
 		it.i++
-		if e, ok := it.mp.entries[k]; ok {
+		if !e.dead {
 			return Tuple{tTrue, e.k, m.copyVal(e.v)}
 		}
 	}
@@ -1034,9 +1034,9 @@ func (m *Machine) rangeIter(fr *frame, x Value) iterator {
 	switch x := x.(type) {
 	case *Map:
 		if x == nil {
-			return &mapIter{mp: &Map{entries: map[string]*mapEntry{}}}
+			return &mapIter{}
 		}
-		return &mapIter{mp: x, keys: append([]string(nil), x.keys...)}
+		return &mapIter{ents: append([]*mapEntry(nil), x.order...)}
 	case string:
 		return &stringIter{s: x}
 	case *SymStr:
@@ -1155,8 +1155,10 @@ func (m *Machine) callBuiltin(fr *frame, pos token.Pos, fn *ssa.Builtin, args []
 		switch x := args[0].(type) {
 		case *Map:
 			if x != nil {
-				x.entries = map[string]*mapEntry{}
-				x.keys = nil
+				for _, e := range x.order {
+					e.dead = true
+				}
+				x.order, x.idx, x.nsym, x.live = nil, map[string]*mapEntry{}, 0, 0
 			}
 		case ByteSlice:
 			if x.obj != nil {
@@ -1180,7 +1182,8 @@ func (m *Machine) callBuiltin(fr *frame, pos token.Pos, fn *ssa.Builtin, args []
 		return nil
 
 	case "delete":
-		args[0].(*Map).remove(m.keyString(args[1]))
+		kt := fn.Type().(*types.Signature).Params().At(0).Type().Underlying().(*types.Map).Key()
+		m.mapDelete(fr, args[0].(*Map), kt, args[1])
 		return nil
 
 	case "print", "println":
